@@ -28,3 +28,17 @@ def registry_abs():
         from . import compact_contracts
         compact_contracts.register(_REG_ABS)
     return _REG_ABS
+
+
+_REG_C09 = None
+
+
+def registry_abs_canonical():
+    """Loop-level contracts of compact with the C09 invariants (sorted by key, antichain, no group skipped)."""
+    global _REG_C09
+    if _REG_C09 is None:
+        _REG_C09 = Registry()
+        from . import compact_contracts
+        compact_contracts.register(_REG_C09)
+        compact_contracts.register_compact(_REG_C09, coverage=False, canonical=True)
+    return _REG_C09
